@@ -48,7 +48,7 @@ def check(ctx):
          'functionals that are not quadratic on the line (their gradients '
          'are only covered through the general d/dt rule)'])
     model = Model(ctx)
-    n = 0
+    n = nn = 0
     for name, (builder, aspects) in instances().items():
         rel, line = _loc(model, name)
         if 'g' in aspects:
@@ -80,11 +80,48 @@ def check(ctx):
             except PyRaise as e:
                 rep.violation('R3', name.split('[')[0] + ':grad_lipschitz',
                               '%s: raises %s' % (tag, e.name), rel, line)
+            # R3n: a leaf that declares no bound (nan) makes the bound of
+            # the derived functional unknown as well, whichever leaf it is
+            for unk in (('f',), ('g',)):
+                tagn = '%s.grad_lipschitz[%s unknown]' % (name, unk[0])
+                try:
+                    rs = evaluate(model, builder, 'l', unknown=unk)
+                except Undecided as e:
+                    rep.undecided('R3n', tagn, str(e), rel, line)
+                    continue
+                except PyRaise as e:
+                    rep.violation('R3n', name.split('[')[0] +
+                                  ':grad_lipschitz', '%s: raises %s'
+                                  % (tagn, e.name), rel, line)
+                    continue
+                for r in rs:
+                    got = r['got']
+                    uses = _uses_leaf(r['den'], unk[0])
+                    if not uses:
+                        continue     # the functional does not involve it
+                    nn += 1
+                    if isinstance(got, Opaque) and got.desc == 'np.nan':
+                        rep.holds('R3n', tagn, 'nan (no bound claimed)')
+                    else:
+                        rep.violation(
+                            'R3n', name.split('[')[0] + ':grad_lipschitz',
+                            '%s: the summand / operand %s declares no '
+                            'Lipschitz bound (nan) but the derived '
+                            'functional declares %r' % (tagn, unk[0], got),
+                            rel, line)
     rep.floor('R1', 'gradient instances', n, 18)
+    rep.floor('R3n', 'unknown-bound propagations', nn, 8)
     _numerical_gradient(ctx, rep)
     from . import c09b
     c09b.run(rep, model)
     return rep
+
+
+def _uses_leaf(den, leaf):
+    """Does the value of the derived functional depend on the leaf's
+    curvature a_<leaf> (the quantity its Lipschitz bound is about)?"""
+    from ..mdiff import _depends
+    return _depends(to_rat(den), 'a_' + leaf)
 
 
 def _atom_value(a, env):
